@@ -152,8 +152,19 @@ def run(out: Outcome, drv):
                 second = (case2, obs2, rows_ok2)
             except Exception as e:  # noqa: BLE001
                 out.violation(f"{WHAT}: second PandasStore.save raised {type(e).__name__}: {e}", {"case": jsonable(case2)})
-        # roll-up
-        store.compute_aggregate()
+        # roll-up: the test columns are still the tests' flags afterwards, plus exactly one new column
+        with warnings.catch_warnings():
+            warnings.simplefilter("ignore")
+            try:
+                base_cols = frame_cols(store.save(write_data=False, write_axes=False), intern)
+                store.compute_aggregate()
+                after_cols = frame_cols(store.save(write_data=False, write_axes=False), intern)
+            except Exception as e:  # noqa: BLE001
+                out.violation(f"{WHAT}: save / compute_aggregate raised {type(e).__name__}: {e}", {"case": jsonable(case)})
+                continue
+        if after_cols[:len(base_cols)] != base_cols or len(after_cols) != len(base_cols) + 1:
+            out.violation(f"{WHAT}: after compute_aggregate the frame is not 'the same test columns plus one roll-up column': "
+                          f"before {base_cols}, after {after_cols}", {"case": jsonable(case), "before": base_cols, "after": after_cols})
         roll = store.collected_results[-1]
         meta.append((case, obs, rows_ok, wired, crs, roll))
         if second is not None:
